@@ -231,8 +231,9 @@ func randomPath(g *sg.G, w *world) []string {
 
 func genCase(t *rapid.T) Case {
 	g := &sg.G{T: t, Cfg: sg.GenCfg{MaxMods: 2, NoFeatures: true, NoWhenMust: true, NoRpcs: true}}
-	cfgOnly := g.Chance(1, 4, "cfgonly")
-	g.Cfg.ConfigFalse = cfgOnly
+	// config false subtrees in half of the schemas; half of those compiled with the configuration-only filter
+	g.Cfg.ConfigFalse = g.Chance(1, 2, "cfgfalse")
+	cfgOnly := g.Cfg.ConfigFalse && g.Chance(1, 2, "cfgonly")
 	c := Case{Mods: g.GenSet(), CfgOnly: cfgOnly}
 	// status on some nodes, choices and cases included (weakening only): a deprecated or obsolete node is a node of the
 	// schema like any other
